@@ -225,7 +225,7 @@ func (r *Replica) freshProbeTx(p bhPerturb, nonceOff uint64) (bz []byte, err err
 	if r.Probe == [20]byte{} {
 		to, data = bhUserEth[(f+1)%bhNU], nil
 	}
-	msg, err := r.ethMsg(ctx, f, &to, big.NewInt(0), data, 1_500_000, p.N%2 == 1, nonceOff)
+	msg, err := r.ethMsg(ctx, f, &to, big.NewInt(0), data, probeGas(len(data)/32), p.N%2 == 1, nonceOff)
 	if err != nil {
 		return nil, err
 	}
@@ -300,7 +300,7 @@ func runPerturb(r *Replica, g bhGenesis, p bhPerturb, next *rawBlock, l *perturb
 		}
 		f := ((p.F % bhNU) + bhNU) % bhNU
 		to := r.Probe
-		msg, err := r.ethMsg(r.checkCtx(), f, &to, big.NewInt(0), probeCalldata(reqs), 1_500_000, p.N%2 == 1, 0)
+		msg, err := r.ethMsg(r.checkCtx(), f, &to, big.NewInt(0), probeCalldata(reqs), probeGas(len(reqs)), p.N%2 == 1, 0)
 		if err != nil {
 			l.problem(p.K, err.Error())
 			return
@@ -645,7 +645,11 @@ func coqBhCase(entries uint32, obs []bhObservation) (string, int) {
 	seen := map[string]bool{}
 	var items []string
 	for _, o := range obs {
-		it := fmt.Sprintf("(%s, %s, %s)", coqZi(o.Cur), coqZ(o.Req), coqBool(o.NonZero))
+		req := coqZ(o.Req)
+		if d := new(big.Int).Sub(two256, o.Req); o.Req.BitLen() > 64 && d.IsInt64() {
+			req = fmt.Sprintf("(two256 - %s)%%Z", d.String()) // NUMBER - k below zero: a long numeral is slow to parse
+		}
+		it := fmt.Sprintf("(%s, %s, %s)", coqZi(o.Cur), req, coqBool(o.NonZero))
 		if !seen[it] {
 			seen[it] = true
 			items = append(items, it)
